@@ -4,7 +4,7 @@
 # with it, the demonstration fails with it and passes without it), runs the
 # property's quick check against it through VERIF_REPO, and prints a summary.
 set -u
-id=$1; seed=$2; pkg=$3; tags=${4:-}
+id=$1; seed=$(realpath "$2"); pkg=$3; tags=${4:-}
 export GOFLAGS=-mod=mod GOPROXY=off GOSUMDB=off GOTOOLCHAIN=local
 wt=$(mktemp -d /tmp/evalseed-XXXXXX); rmdir "$wt"
 git -C /repo worktree add -q --detach "$wt" HEAD || exit 2
